@@ -23,7 +23,7 @@ Lemma insert_ii_lawful k v u w :
         (elems (self w'), fst r, snd r) = l_insert ck (elems (self w)) k v u /\
         (find_idx ck (ck k) (elems (self w)) = None -> len (self w) < cap (self w)))
      (fun w' =>
-        self w' = self w /\ logged w w' (ev_drops (idK E k ++ idV E v)) /\
+        self w' = self w /\ logged w w' (ev_drops (idV E v ++ idK E k)) /\
         find_idx ck (ck k) (elems (self w)) = None /\ len (self w) = cap (self w)) w.
 Proof.
   intros Hw. unfold insert_ii. apply wp_bind. apply wp_on_unwind_nopanic.
@@ -42,14 +42,14 @@ Proof.
       split; [|discriminate]. rewrite elems_set_slot by auto. reflexivity.
   - apply wp_bind. apply wp_get_len. apply wp_bind. apply wp_get_cap. rewrite Hs1.
     assert (Hover : forall w2, self w2 = self w1 -> log w2 = log w1 -> cap (self w) <= len (self w) ->
-              wp (unwind_pair E (k, v))
-                 (fun _ w' => self w' = self w /\ logged w w' (ev_drops (idK E k ++ idV E v)) /\
+              wp (unwind_args E k v)
+                 (fun _ w' => self w' = self w /\ logged w w' (ev_drops (idV E v ++ idK E k)) /\
                               @None nat = None /\ len (self w) = cap (self w))
-                 (fun w' => self w' = self w /\ logged w w' (ev_drops (idK E k ++ idV E v)) /\
+                 (fun w' => self w' = self w /\ logged w w' (ev_drops (idV E v ++ idK E k)) /\
                               @None nat = None /\ len (self w) = cap (self w)) w2).
     { intros w2 Hs2 Hl2 Hc.
-      eapply wp_mono; [apply (unwind_pair_lawful E (k, v) w2) | | intros w' []]; cbn beta.
-      intros _ w' [Hs3 Hl3]. cbn [fst snd] in Hl3.
+      eapply wp_mono; [apply (unwind_args_lawful E k v w2) | | intros w' []]; cbn beta.
+      intros _ w' [Hs3 Hl3].
       split; [congruence|]. split; [unfold logged in *; congruence|]. split; [reflexivity|].
       pose proof (WF_len_le_cap _ Hw). lia. }
     apply wp_bind. apply wp_on_unwind. apply wp_bind. apply wp_dbg_assert.
